@@ -124,6 +124,36 @@ fn main() {
             }
             println!("{}", J::Arr(ramps).to_string());
         }
+        "corpus" => {
+            // write a seed corpus for the libFuzzer engine: test-suite vectors + generated messages
+            use cosetmon::gen::{self, GenOpts};
+            let dir = args.get(2).expect("output directory").clone();
+            std::fs::create_dir_all(&dir).expect("mkdir");
+            let mut n = 0;
+            for (i, l) in include_str!("../../corpus/repo-test-vectors.txt").lines().enumerate() {
+                if let Some(b) = rcbor::unhex(l) {
+                    std::fs::write(format!("{}/vec-{:04}", dir, i), b).expect("write");
+                    n += 1;
+                }
+            }
+            let mut r = cosetmon::rng::Rng::new(20261001);
+            for i in 0..800u64 {
+                let ty = cosetmon::model::STRUCT_TYPES[(i % 16) as usize];
+                let v = gen::gen_mval(&mut r, ty, &GenOpts::wire());
+                let b = rcbor::encode(&cosetmon::model::encode(&v), &mut rcbor::Style::random(i));
+                if b.len() <= 4096 {
+                    std::fs::write(format!("{}/gen-{:04}", dir, i), b).expect("write");
+                    n += 1;
+                }
+            }
+            for d in [1usize, 3, 8, 9, 12] {
+                for f in 0..5u8 {
+                    std::fs::write(format!("{}/chain-{}-{}", dir, d, f), cosetmon::hostile::b1_header(d, f)).expect("write");
+                    n += 1;
+                }
+            }
+            println!("{} seed files", n);
+        }
         "miniwork" => {
             // small single-threaded workload for interpreters (Miri) and memcheck: generated and
             // mutated messages through every entry point, follow-ups and the fixed-point oracle.
